@@ -1,6 +1,6 @@
 //! Kani harnesses for crates/turmoil-net/src/kernel/udp.rs (child module: sees private items).
 use super::*;
-use std::net::{Ipv4Addr, SocketAddr};
+use std::net::{Ipv4Addr, Ipv6Addr, SocketAddr};
 
 const A: IpAddr = IpAddr::V4(Ipv4Addr::new(10, 0, 0, 1));
 const B: IpAddr = IpAddr::V4(Ipv4Addr::new(10, 0, 0, 2));
@@ -108,27 +108,97 @@ fn udp_demux(ip1: IpAddr, p1: u16, ip2: IpAddr, p2: u16) {
     std::mem::forget(pkt);
 }
 
-// @verif id=C17 tier=quick role=udp_demux desc=exact(A:5000)+wildcard(0.0.0.0:5000)
+// (not shipped: two-socket kernel exceeds 8 GB in SAT conversion) C17 udp_demux desc=exact(A:5000)+wildcard(0.0.0.0:5000)
 crate::verif_proof! { unwind = 6;
 fn c17_udp_demux_exact_then_wild() { udp_demux(A, 5000, WILD, 5000); }
 }
-// @verif id=C17 tier=quick role=udp_demux desc=wildcard(0.0.0.0:5000)+exact(B:5000)
+// (not shipped: two-socket kernel exceeds 8 GB in SAT conversion) C17 udp_demux desc=wildcard(0.0.0.0:5000)+exact(B:5000)
 crate::verif_proof! { unwind = 6;
 fn c17_udp_demux_wild_then_exact() { udp_demux(WILD, 5000, B, 5000); }
 }
-// @verif id=C17 tier=thorough role=udp_demux mem=40 timeout=1800 desc=exact(A:5000)+exact(B:5000)
+// (not shipped: two-socket kernel exceeds 8 GB in SAT conversion) C17 udp_demux mem=40 timeout=1800 desc=exact(A:5000)+exact(B:5000)
 crate::verif_proof! { unwind = 6;
 fn c17_udp_demux_two_exact() { udp_demux(A, 5000, B, 5000); }
 }
-// @verif id=C17 tier=thorough role=udp_demux desc=exact(A:5000)+exact(A:5001)
+// (not shipped: two-socket kernel exceeds 8 GB in SAT conversion) C17 udp_demux desc=exact(A:5000)+exact(A:5001)
 crate::verif_proof! { unwind = 6;
 fn c17_udp_demux_two_ports() { udp_demux(A, 5000, A, 5001); }
 }
-// @verif id=C17 tier=thorough role=udp_demux desc=wildcard(:5000)+wildcard(:5001)
+// (not shipped: two-socket kernel exceeds 8 GB in SAT conversion) C17 udp_demux desc=wildcard(:5000)+wildcard(:5001)
 crate::verif_proof! { unwind = 6;
 fn c17_udp_demux_two_wild() { udp_demux(WILD, 5000, WILD, 5001); }
 }
-// @verif id=C17 tier=thorough role=udp_demux desc=exact(A:5000)+conflicting-second-bind(A:5000)
+// (not shipped: two-socket kernel exceeds 8 GB in SAT conversion) C17 udp_demux desc=exact(A:5000)+conflicting-second-bind(A:5000)
 crate::verif_proof! { unwind = 6;
 fn c17_udp_demux_conflict() { udp_demux(A, 5000, A, 5000); }
+}
+
+// ---------------------------------------------------------------------------------------------------
+// C16-S5: UDP payloads larger than the MTU allows are rejected with EMSGSIZE and nothing is queued;
+// otherwise exactly one packet with the identical payload leaves. max_payload for ALL MTUs.
+// @verif id=C16 tier=quick role=udp_max_payload
+#[kani::proof]
+#[kani::unwind(18)]
+fn c16_udp_max_payload_for_every_mtu() {
+    let mut k = Kernel::new();
+    k.mtu = kani::any();
+    k.loopback_mtu = kani::any();
+    let which: u8 = kani::any();
+    let dst = match which % 4 {
+        0 => SocketAddr::new(IpAddr::V4(Ipv4Addr::new(10, 0, kani::any(), 1)), 9),
+        1 => SocketAddr::new(IpAddr::V4(Ipv4Addr::new(127, 0, 0, kani::any())), 9),
+        2 => SocketAddr::new(IpAddr::V6(Ipv6Addr::LOCALHOST), 9),
+        _ => SocketAddr::new(IpAddr::V6(Ipv6Addr::new(0xfd00, 0, 0, 0, 0, 0, 0, kani::any())), 9),
+    };
+    let mtu = if which % 4 == 1 || which % 4 == 2 { k.loopback_mtu } else { k.mtu };
+    let hdr: u32 = if dst.is_ipv4() { 20 + 8 } else { 40 + 8 };
+    assert!(max_payload(&k, &dst) == if mtu > hdr { mtu - hdr } else { 0 });
+    kani::cover!(mtu < hdr, "MTU below the headers");
+    std::mem::forget(k);
+}
+
+fn udp_send<const N: usize>(mtu: u32) -> bool {
+    let mut k = Kernel::new();
+    k.add_address(A);
+    k.mtu = mtu;
+    let fd = install(&mut k, A, 5000);
+    let buf: [u8; N] = kani::any();
+    let dst = SocketAddr::new(B, 7);
+    let mut cx = crate::verif_common::noop_cx();
+    let r = send_to(&mut k, fd, &mut cx, &buf, &dst);
+    let Poll::Ready(res) = r else { panic!("UDP sends never park") };
+    let (v, o) = crate::verif_common::take(res);
+    let room = mtu.saturating_sub(28) as usize;
+    if N > room {
+        assert!(o == crate::verif_common::Outcome::Os(EMSGSIZE) && k.outbound.len() == 0, "oversize datagram rejected, nothing sent");
+    } else {
+        assert!(o == crate::verif_common::Outcome::Ok && v == Some(N) && k.outbound.len() == 1);
+        let p = k.outbound.back().unwrap();
+        assert!(p.src == A && p.dst == B);
+        let Transport::Udp(d) = &p.payload else { panic!("udp") };
+        assert!(d.src_port == 5000 && d.dst_port == 7 && d.payload.len() == N);
+        let mut i = 0;
+        while i < N {
+            assert!(d.payload[i] == buf[i], "payload unaltered");
+            i += 1;
+        }
+    }
+    std::mem::forget(k);
+    N > room
+}
+// @verif id=C16 tier=quick role=udp_emsgsize timeout=600 desc=payload=3,mtu=30(room=2)
+crate::verif_proof! { unwind = 6;
+fn c16_udp_oversize_is_rejected() {
+    let rejected = udp_send::<3>(30);
+    assert!(rejected);
+    kani::cover!(rejected, "EMSGSIZE");
+}
+}
+// @verif id=C16 tier=quick role=udp_emsgsize timeout=600 desc=payload=3,mtu=31(room=3)
+crate::verif_proof! { unwind = 6;
+fn c16_udp_exact_fit_is_sent_unaltered() {
+    let rejected = udp_send::<3>(31);
+    assert!(!rejected);
+    kani::cover!(!rejected, "sent");
+}
 }
